@@ -31,6 +31,33 @@ theorem log2Fuel_spec : ∀ (fuel k : Nat), 1 ≤ k → k ≤ fuel →
 theorem natLog2_spec (n : Nat) (h : 1 ≤ n) : 2 ^ natLog2 n ≤ n ∧ n < 2 ^ (natLog2 n + 1) :=
   log2Fuel_spec n n h (Nat.le_refl n)
 
+theorem natLog2Scaled_spec (A : Nat) (h : 1 ≤ A) :
+    2 ^ natLog2Scaled A ≤ A ∧ A < 2 ^ (natLog2Scaled A + 1) := by
+  unfold natLog2Scaled
+  by_cases hm : A % 2 ^ 1074 = 0
+  · simp only [hm, if_true]
+    have hA : A = A / 2 ^ 1074 * 2 ^ 1074 := by
+      have := Nat.div_add_mod A (2 ^ 1074)
+      rw [hm, Nat.add_zero, Nat.mul_comm] at this
+      exact this.symm
+    have hq : 1 ≤ A / 2 ^ 1074 := by
+      apply Classical.byContradiction
+      intro hn
+      have : A / 2 ^ 1074 = 0 := by omega
+      rw [this, Nat.zero_mul] at hA
+      omega
+    obtain ⟨a1, a2⟩ := natLog2_spec (A / 2 ^ 1074) hq
+    generalize natLog2 (A / 2 ^ 1074) = l at *
+    generalize A / 2 ^ 1074 = q at *
+    have pK : 0 < 2 ^ 1074 := Nat.pow_pos (by decide)
+    rw [hA]
+    constructor
+    · rw [Nat.pow_add]; exact Nat.mul_le_mul_right _ a1
+    · have : l + 1074 + 1 = (l + 1) + 1074 := by omega
+      rw [this, Nat.pow_add]; exact Nat.mul_lt_mul_of_pos_right a2 pK
+  · simp only [hm, if_false]
+    exact natLog2_spec A h
+
 /-! ### rounding a quotient half-to-even -/
 
 theorem rhe_ge (p q : Nat) : p / q ≤ rhe p q := by
@@ -118,10 +145,10 @@ theorem two_pow_pos (n : Nat) : 0 < 2 ^ n := Nat.pow_pos (by decide)
 /-- `A / (d * 2^f)` is below 2^53, and at least 2^52 unless `f = 0` (subnormal range) -/
 theorem pickF_spec (A d : Nat) (hA : 1 ≤ A) (hd : 1 ≤ d) :
     A < 2 ^ 53 * (d * 2 ^ pickF A d) ∧ (pickF A d ≠ 0 → 2 ^ 52 * (d * 2 ^ pickF A d) ≤ A) := by
-  obtain ⟨a1, a2⟩ := natLog2_spec A hA
+  obtain ⟨a1, a2⟩ := natLog2Scaled_spec A hA
   obtain ⟨b1, b2⟩ := natLog2_spec d hd
   unfold pickF
-  generalize natLog2 A = lA at *
+  generalize natLog2Scaled A = lA at *
   generalize natLog2 d = ld at *
   simp only []
   by_cases ht : ((lA : Int) - (ld : Int) - 52) ≤ 0
